@@ -7,7 +7,8 @@ PROP = dict(
     rule=("Part A (libFuzzer, fuzz/C06_decode_fz.cpp): arbitrary bytes (NUL replaced by space; inputs <= 4096 bytes; seed corpus of 200 generated "
           "JSON/XDL texts); the tail of the input is decoded into 0..7 cut positions. Oracle in the target: Json::decode, Xdl::decode and "
           "XdlParser::decode agree; an XdlParser fed the chunks (each in an exact-size heap block) and the final ' ' flush gives the same "
-          "value as the whole text (walker over Var accessors: same types, same bits, same keys; both rejected = equal); ASan = memory "
+          "value as the whole text (walker over Var accessors: same types, same bits, same keys; both rejected = equal); when the text is "
+          "accepted the SAME parser object is reset() and fed the chunks, then reset() and the whole text again: same value; ASan = memory "
           "safety; libFuzzer -timeout=10 = termination. "
           "Part B (rapidcheck, harness/C06_decode.cpp): json = text-level generator of valid RFC 8259 documents together with their value "
           "(insignificant whitespace from the 4 legal characters at every slot; every escape form incl. \\/ and \\uXXXX in both hex cases, "
@@ -20,10 +21,12 @@ PROP = dict(
           "100 evenly spaced). deep = 1..512 nested arrays/objects/alternating: (a) and (c). xdl = XDL-flavoured texts (unquoted names, "
           "= or :, Y/N, newline separators, // and /* */ comments, class prefixes), mut = documents mutated by truncation, deletion, "
           "duplication, splicing of two documents, byte flips and structural-character insertion, raw = random strings over a structural "
-          "alphabet: totality and (c) only. \\u0000 and lone surrogates are never generated (excluded by the property). "
+          "alphabet: totality and (c) only. reuse = 2..6 generated documents (valid JSON, XDL-flavoured, 1/10 mutated; whole or in a random k-chunk partition) decoded in turn by ONE XdlParser object with reset() between them: every document a fresh parser accepts must give the identical value on the reused parser (reset() is relied upon only after a complete document - after a rejected one the session continues on a new object; a document a fresh parser rejects is not compared, because the unchanged reset() keeps the root list and value() then reports the previous document again); every accepted document of the other parts also gets a short reuse round (decode, reset(), 3 chunks, reset(), decode). \\u0000 and lone surrogates are never generated (excluded by the property). "
           "Non-trivial: Part A an input with a cut strictly inside a text containing one of [ { \" \\ /; json documents with >= 2 tokens; "
-          "deep cases; xdl texts asl accepts; mut/raw texts of >= 4 bytes. Distinct = distinct FNV-1a hash of the text."),
-    assumptions=["harness/common/ref_json.h implements RFC 8259 (audited against python's json module: python3 lib/audit_json.py)",
+          "deep cases; xdl texts asl accepts; mut/raw texts of >= 4 bytes; reuse sessions with >= 2 consecutive accepted documents. Distinct = distinct FNV-1a hash of the text."),
+    assumptions=["XdlParser::reset() is the interface for decoding another document with the same parser object (undocumented class; "
+                 "asserted only after a complete document without an unpaired high-surrogate escape, which is what the unchanged tree supports)",
+                 "harness/common/ref_json.h implements RFC 8259 (audited against python's json module: python3 lib/audit_json.py)",
                  "'the same result' for chunked feeding = identical type tags, bit-identical numbers, identical strings and key sets",
                  "AddressSanitizer reports every out-of-bounds access (parser input chunks live in exact-size heap blocks)",
                  "nesting is bounded by 512 in the conformance part and by the 4096-byte input cap in the fuzz part; deeper nesting is "
